@@ -497,6 +497,21 @@ def lvCases : List Case → Nat
   | .mk _ _ body :: rest => max (lvB body) (lvCases rest)
 end
 
+/-- A function body inside the fragment of the refinement theorem. -/
+def bodyOK (body : List Expr) : Bool :=
+  wfB true body && exB false false body && decide (lvB body ≤ 2)
+
+/-- `apply` with the fragment check made dynamic for closures: calling a closure whose body is
+outside the fragment answers `unsupported` (nothing claimed). Every function literal of a program
+satisfying `wfProgram`, `exitsProgram`, `levelProgram ≤ 2` has a body inside the fragment, so on
+such programs this is `apply`. Named functions are covered by the program-level predicates. -/
+def applyChecked (p : Program) : Ap := fun ev σ out fv vs =>
+  match fv with
+  | .closure _ _ body =>
+    if bodyOK body then apply ev p σ out fv vs
+    else ⟨σ, out, .unsupported "closure body outside the fragment"⟩
+  | _ => apply ev p σ out fv vs
+
 /-- Use flags of a whole program: every toplevel expression is used (the parser leaves
 `value_is_used = true` on `ToplevelItem::Expr`), function bodies are used blocks. -/
 def wfProgram (p : Program) : Bool :=
